@@ -105,4 +105,10 @@ def fieldSat (E : Ext) (env : Env) (f : FieldDef) (x : PyVal) : Bool :=
   (f.attrNullable && isNoneV x) ||
   (if f.attrUserDefined then typeOnlyB env f.ty x else satB E env f.ty x)
 
+/-- what reading field `f` gives after `x` was successfully assigned to it: the value itself for a
+field of a user type (stored by reference), its normalisation otherwise. (Assigning None to a
+nullable field unsets it; reading then gives None, which is `x` again.) -/
+def storedOf (E : Ext) (f : FieldDef) (x : PyVal) : PyVal :=
+  if f.attrUserDefined then x else normOf E f.ty x
+
 end StoneVerif.Rt
